@@ -67,6 +67,8 @@ def case_strategy():
                     m["ann"] = draw(st.sampled_from(ANNS))
                 if mc and not (ext and j == 0) and draw(st.integers(0, 4)) == 0:
                     m["prio"] = draw(st.sampled_from([1, -1]))
+                elif mc and ext and j > 0 and draw(st.integers(0, 3)) == 0:
+                    m["also_marked"] = True  # a later definition carries the marker too (harmless: same meaning)
                 key = (R.canon(GR.method_ann(m) if kind != "next" else m["ann"]), m["prio"])
                 if key in own:
                     continue
@@ -106,6 +108,8 @@ def render_class(c, classes):
     decorated = any(m.get("prio") for m in c["defs"])
     for j, m in enumerate(c["defs"]):
         if c["ext"] and j == 0:
+            lines.append("    @extend_super")
+        elif m.get("also_marked") and not decorated:
             lines.append("    @extend_super")
         elif decorated:
             # @ovld(...) looks the name up in the class body and insists on finding an overloaded function there,
